@@ -629,7 +629,7 @@ static Type *func_params(Token **rest, Token *tok, Type *ty) {
     Token *name = ty2->name;
     Token *name_pos = ty2->name_pos;
 
-    if (ty2->kind == TY_ARRAY) {
+    if (ty2->kind == TY_ARRAY || ty2->kind == TY_VLA) {
       // "array of T" is converted to "pointer to T" only in the parameter
       // context. For example, *argv[] is converted to **argv by this.
       ty2 = pointer_to(ty2->base);
@@ -644,6 +644,19 @@ static Type *func_params(Token **rest, Token *tok, Type *ty) {
     }
 
     cur = cur->next = copy_type(ty2);
+
+    // [https://www.sigbus.info/n1570#6.2.1p7] A parameter is in scope
+    // from the end of its declarator, i.e. for the rest of the parameter
+    // list: void f(short n, char (*p)[sizeof(n)]). function() turns
+    // this entry into the local variable of a function definition.
+    if (name) {
+      Obj *var = calloc(1, sizeof(Obj));
+      var->name = get_ident(name);
+      var->ty = cur;
+      var->align = cur->align;
+      var->is_local = true;
+      push_scope(var->name)->var = var;
+    }
   }
 
   if (cur == &head)
@@ -3611,7 +3624,16 @@ static void create_param_lvars(Type *param) {
     create_param_lvars(param->next);
     if (!param->name)
       error_tok(param->name_pos, "parameter name omitted");
-    new_lvar(get_ident(param->name), param);
+
+    // Reuse the entry func_params() made for this parameter, if any.
+    char *name = get_ident(param->name);
+    VarScope *sc = hashmap_get(&scope->vars, name);
+    if (sc && sc->var && sc->var->ty == param) {
+      sc->var->next = locals;
+      locals = sc->var;
+    } else {
+      new_lvar(name, param);
+    }
   }
 }
 
@@ -3732,6 +3754,16 @@ static Token *function(Token *tok, Type *basety, VarAttr *attr) {
     fn->va_area = new_lvar("__va_area__", array_of(ty_char, 200));
   fn->alloca_bottom = new_lvar("__alloca_size__", pointer_to(ty_char));
 
+  // The sizes of variably modified parameter types, e.g. the n of
+  // int (*a)[n], are computed on entry to the function.
+  Node *vla_sizes = NULL;
+  for (Type *t = ty->params; t; t = t->next) {
+    Node *n = new_unary(ND_EXPR_STMT, compute_vla_size(t, tok), tok);
+    add_type(n);
+    n->next = vla_sizes;
+    vla_sizes = n;
+  }
+
   tok = skip(tok, "{");
 
   // [https://www.sigbus.info/n1570#6.4.2.2p1] "__func__" is
@@ -3746,6 +3778,11 @@ static Token *function(Token *tok, Type *basety, VarAttr *attr) {
 
   // The parameters and the outermost block of the body are one scope.
   fn->body = block_items(&tok, tok);
+  for (Node *n = vla_sizes, *next; n; n = next) {
+    next = n->next;
+    n->next = fn->body->body;
+    fn->body->body = n;
+  }
   fn->locals = locals;
   leave_scope();
   resolve_goto_labels();
